@@ -201,3 +201,62 @@ Definition interp_ts_set (parms : list parm) (arms : list sarm) (ws : list bool)
   | Some st => run_stmt parms ws o s B st
   | None => None
   end.
+
+(** * TextSelectionSet::test and TextSelectionSet::test_set: a set against a selection / a set *)
+(* both begin with `if self.is_empty() { return false; }` and delegate to the tests of the members *)
+
+Inductive gstmt :=
+| GAll          (* for item in self.iter() { if !item.<test>(operator, <ref>, resource) { return false; } } true *)
+| GLenAll       (* if self.len() != refset.len() { return false; } and then GAll *)
+| GRightmost    (* self.rightmost().unwrap().<test>(operator, <ref>, resource) *)
+| GLeftmost     (* self.leftmost().unwrap().<test>(operator, <ref>, resource) *)
+| GSameRange    (* the comparison of self.begin() / self.end() with those of the reference *)
+| GToggle.      (* !self.<test>(&operator.toggle_negate(), <ref>, resource) *)
+
+Record garm := mkgarm { ga_pats : list ppat; ga_body : gstmt }.
+
+Fixpoint find_garm (arms : list garm) (o : op) : option gstmt :=
+  match arms with
+  | [] => None
+  | a :: arms' => if existsb (fun p => pat_matches p o) (ga_pats a) then Some (ga_body a) else find_garm arms' o
+  end.
+
+Definition run_gstmt (inner : ts -> option bool) (lens_differ : bool) (same_range : bool) (A : tset) (st : gstmt) : option bool :=
+  match st with
+  | GAll => all_opt inner (items A)
+  | GLenAll => if lens_differ then Some false else all_opt inner (items A)
+  | GRightmost => match rightmost A with Some a => inner a | None => None end
+  | GLeftmost => match leftmost A with Some a => inner a | None => None end
+  | GSameRange => Some same_range
+  | GToggle => None
+  end.
+
+Definition interp_g (arms : list garm) (inner : op -> ts -> option bool) (lens_differ same_range : bool) (o : op) (A : tset) : option bool :=
+  if is_nil' (items A) then Some false
+  else match find_garm arms o with
+       | Some GToggle =>
+           match find_garm arms (toggle o) with
+           | Some GToggle | None => None
+           | Some st => option_map negb (run_gstmt (inner (toggle o)) lens_differ same_range A st)
+           end
+       | Some st => run_gstmt (inner o) lens_differ same_range A st
+       | None => None
+       end.
+
+Definition opt_nat_eqb (a b : option nat) : bool :=
+  match a, b with Some x, Some y => Nat.eqb x y | None, None => true | _, _ => false end.
+
+(* self.begin() == Some(reftextsel.begin()) && self.end() == Some(reftextsel.end()) *)
+Definition same_range_ts (A : tset) (r : ts) : bool :=
+  opt_nat_eqb (option_map tb (leftmost A)) (Some (tb r)) && opt_nat_eqb (option_map te (rightmost A)) (Some (te r)).
+(* !refset.is_empty() && self.begin() == refset.begin() && self.end() == refset.end() *)
+Definition same_range_set (A B : tset) : bool :=
+  negb (is_nil' (items B)) && opt_nat_eqb (option_map tb (leftmost A)) (option_map tb (leftmost B))
+  && opt_nat_eqb (option_map te (rightmost A)) (option_map te (rightmost B)).
+
+Definition interp_set_ts (parms : list parm) (arms : list garm) (ws : list bool) (o : op) (A : tset) (r : ts) : option bool :=
+  interp_g arms (fun o' a => interp_pair parms ws o' a r) false (same_range_ts A r) o A.
+
+Definition interp_set_set (parms : list parm) (sarms : list sarm) (arms : list garm) (ws : list bool) (o : op) (A B : tset) : option bool :=
+  interp_g arms (fun o' a => interp_ts_set parms sarms ws o' a B)
+           (negb (Nat.eqb (length (items A)) (length (items B)))) (same_range_set A B) o A.
